@@ -362,14 +362,80 @@ func write(name, content string) {
 
 const header = "-- GENERATED by /verif/extract from /repo on every check run. Do not edit.\n"
 
+// encFile is the JSON written by `harness encodings`: the six exported encodings as the
+// built package behaves (Decode of every byte, Name, GetEncoding of each name).
+var encFile string
+
+type runtimeEncodings struct {
+	Vars     []string           `json:"vars"`
+	Names    map[string]string  `json:"names"`
+	Tables   map[string][]int64 `json:"tables"`
+	Dispatch [][2]string        `json:"dispatch"` // encoding name -> variable GetEncoding returns
+	Default  string             `json:"default"`
+}
+
+// genEncodings reads the tables from the source text; when the source no longer has the
+// shape this reader knows (fields or types renamed, switch replaced by a map) it falls back
+// on what the built package reports through its public API, written in the same form.
 func genEncodings() {
+	defer func() {
+		r := recover()
+		if r == nil {
+			return
+		}
+		if encFile == "" {
+			panic(r)
+		}
+		raw, err := os.ReadFile(encFile)
+		if err != nil {
+			panic(r)
+		}
+		var re runtimeEncodings
+		if err := json.Unmarshal(raw, &re); err != nil {
+			panic(r)
+		}
+		genEncodingsRuntime(re)
+	}()
+	genEncodingsSource()
+}
+
+var encCanon = map[string]string{"WinAnsiEncoding": "winAnsiTable", "MacRomanEncoding": "macRomanTable", "PDFDocEncoding": "pdfDocTable",
+	"StandardEncodingTable": "standardEncodingTableData", "SymbolEncoding": "symbolEncodingTable", "ZapfDingbatsEncoding": "zapfDingbatsEncodingTable"}
+
+func genEncodingsRuntime(re runtimeEncodings) {
+	var b, vars strings.Builder
+	b.WriteString(header + "namespace Tabula.Gen.Encodings\n\n")
+	vars.WriteString("def encodingVars : List (String × String × String) := [")
+	for i, v := range re.Vars {
+		if len(re.Tables[v]) != 256 || encCanon[v] == "" {
+			fatal("runtime encodings: bad table for %s", v)
+		}
+		b.WriteString(leanNatArray(encCanon[v], re.Tables[v]))
+		b.WriteString("\n")
+		if i > 0 {
+			vars.WriteString(",")
+		}
+		fmt.Fprintf(&vars, "\n  (%s, %s, %s)", leanStr(v), leanStr(re.Names[v]), leanStr(encCanon[v]))
+	}
+	b.WriteString(vars.String())
+	b.WriteString("]\n\n")
+	var cs []swCase
+	for _, d := range re.Dispatch {
+		cs = append(cs, swCase{Lits: []string{d[0]}, Body: "return " + d[1]})
+	}
+	cs = append(cs, swCase{Lits: []string{"<default>"}, Body: "return " + re.Default})
+	b.WriteString(leanSwitch("getEncodingCases", cs))
+	b.WriteString("\nend Tabula.Gen.Encodings\n")
+	write("Encodings.lean", b.String())
+}
+
+func genEncodingsSource() {
 	f := parseFile("font/encoding.go")
 	var b strings.Builder
 	b.WriteString(header + "namespace Tabula.Gen.Encodings\n\n")
 	// The tables are located through the exported encoding variables (`table: X`), and
 	// written under fixed Lean names: the unexported identifier X may change freely.
-	canon := map[string]string{"WinAnsiEncoding": "winAnsiTable", "MacRomanEncoding": "macRomanTable", "PDFDocEncoding": "pdfDocTable",
-		"StandardEncodingTable": "standardEncodingTableData", "SymbolEncoding": "symbolEncodingTable", "ZapfDingbatsEncoding": "zapfDingbatsEncodingTable"}
+	canon := encCanon
 	// named encoding variable -> (name, table identifier)
 	var vars strings.Builder
 	vars.WriteString("def encodingVars : List (String × String × String) := [")
@@ -414,6 +480,7 @@ func main() {
 	flag.StringVar(&repo, "repo", "/repo", "")
 	flag.StringVar(&outDir, "out", "", "")
 	flag.StringVar(&vocabFile, "htmlvocab", "", "JSON written by `harness htmlvocab`")
+	flag.StringVar(&encFile, "encodings", "", "JSON written by `harness encodings`")
 	flag.Parse()
 	if outDir == "" {
 		fatal("-out required")
